@@ -176,6 +176,7 @@ func cmdCheck(args []string) int {
 		results = append(results, r)
 	}
 
+	dumpForkSites()
 	// ---- classify violations, replay natively
 	kf := loadKnown(*known)
 	exit := 0
